@@ -59,3 +59,12 @@ Theorem C10_each_is_recalculation : forall d cs p acc egr rs total r,
     calc_single d cs (with_alt p maxtt ex) acc egr false = Ok (r, used) /\ route_lines d r <> [].
 Proof. exact alt_each_is_recalculation. Qed.
 Print Assumptions C10_each_is_recalculation.
+
+(* every route of an alternatives answer satisfies C01, C02 and C06 for the original query *)
+From TrV Require Import Proofs.Compose.
+Theorem C10_all_routes_ok : forall d s p acc egr rs total,
+  wf_data_b d = true -> wf_tables_b d p acc egr = true -> wf_params_b p = true ->
+  alternatives d (conn_set d s) p acc egr = Ok (rs, total) ->
+  forall r, In r rs -> valid_itinerary_b d s p acc egr r = true /\ limits_ok_b d s p r = true /\ totals_ok_b d p r = true.
+Proof. exact alternatives_all_ok. Qed.
+Print Assumptions C10_all_routes_ok.
